@@ -1,3 +1,5 @@
 SPECIFICATION Spec
+CONSTANTS
+  World = "w1"
 INVARIANT Done
 CHECK_DEADLOCK FALSE
